@@ -38,6 +38,9 @@ class _GraphIO(collections.UserList["_core.Value"]):
         self._ref_counter: collections.Counter[_core.Value] = collections.Counter()
         if initlist is not None:
             initlist = tuple(initlist)  # Create a copy in case initlist is a generator
+            # Validate every value before taking ownership of any of them
+            for value in initlist:
+                self._check_value(value)
             for value in initlist:
                 self._set_graph(value)
         super().__init__(initlist)
@@ -45,6 +48,10 @@ class _GraphIO(collections.UserList["_core.Value"]):
 
     def _check_invariance(self) -> None:
         """Check the invariance of the graph."""
+        raise NotImplementedError
+
+    def _check_value(self, value: _core.Value) -> None:
+        """Raise if the value cannot be added to this collection. Must not modify anything."""
         raise NotImplementedError
 
     def _set_graph(self, value: _core.Value) -> None:
@@ -65,14 +72,18 @@ class _GraphIO(collections.UserList["_core.Value"]):
     def extend(self, other) -> None:
         """Extend the list of inputs or outputs."""
         other = tuple(other)
+        # Perform all checks first so that a rejected value leaves the list unchanged
+        for item in other:
+            self._check_value(item)
         for item in other:
             self._set_graph(item)
         super().extend(other)
 
     def insert(self, i: int, item: _core.Value) -> None:
         """Insert an input/output to the graph."""
-        super().insert(i, item)
+        # Perform checks first in _set_graph before modifying the data structure
         self._set_graph(item)
+        super().insert(i, item)
         self._check_invariance()
 
     def pop(self, i: int = -1) -> _core.Value:
@@ -103,7 +114,17 @@ class _GraphIO(collections.UserList["_core.Value"]):
         """Replace an input/output to the node."""
         if isinstance(item, Iterable) and isinstance(i, slice):
             # Modify a slice of the list
-            for value in self.data[i]:
+            item = tuple(item)
+            old_values = tuple(self.data[i])
+            # Perform all checks first so that a rejected value leaves the list unchanged.
+            # An extended slice must be replaced by the same number of items.
+            for value in item:
+                self._check_value(value)
+            if i.step not in (None, 1) and len(item) != len(old_values):
+                raise ValueError(
+                    f"attempt to assign sequence of size {len(item)} to extended slice of size {len(old_values)}"
+                )
+            for value in old_values:
                 self._maybe_unset_graph(value)
             for value in item:
                 self._set_graph(value)
@@ -112,13 +133,24 @@ class _GraphIO(collections.UserList["_core.Value"]):
             return
         elif isinstance(i, SupportsIndex):
             # Replace a single item
-            self._maybe_unset_graph(self.data[i])
+            old_value = self.data[i]
+            # Perform checks first so that a rejected value leaves the list unchanged
+            self._check_value(item)
+            self._maybe_unset_graph(old_value)
             self._set_graph(item)
             super().__setitem__(i, item)
             self._check_invariance()
             return
 
         raise TypeError(f"Invalid types for __setitem__: {type(i)} and {type(item)}")
+
+    def __delitem__(self, i) -> None:
+        """Remove an input/output (or a slice of them) from the graph."""
+        removed = tuple(self.data[i]) if isinstance(i, slice) else (self.data[i],)
+        super().__delitem__(i)
+        for value in removed:
+            self._maybe_unset_graph(value)
+        self._check_invariance()
 
     def __getitem__(self, i):
         """Get an input/output from the graph."""
@@ -149,8 +181,8 @@ class GraphInputs(_GraphIO):
                 f"Invariance error: Value '{value}' is not an input of the graph: {self._graph!r}"
             )
 
-    def _set_graph(self, value: _core.Value) -> None:
-        """Set the graph for the value."""
+    def _check_value(self, value: _core.Value) -> None:
+        """Raise if the value cannot be an input of the graph."""
         if value._graph is not None and value._graph is not self._graph:
             raise ValueError(
                 f"Value '{value}' is already owned by a different graph. Please remove the value from the previous graph first"
@@ -159,6 +191,10 @@ class GraphInputs(_GraphIO):
             raise ValueError(
                 f"Value '{value}' is produced by a node and cannot be an input to the graph. Please create new Values for graph inputs"
             )
+
+    def _set_graph(self, value: _core.Value) -> None:
+        """Set the graph for the value."""
+        self._check_value(value)
         self._ref_counter[value] += 1
         value._is_graph_input = True
         value._graph = self._graph
@@ -191,12 +227,16 @@ class GraphOutputs(_GraphIO):
                 f"Invariance error: Value '{value}' is not an output of the graph: {self._graph!r}"
             )
 
-    def _set_graph(self, value: _core.Value) -> None:
-        """Set the graph for the value."""
+    def _check_value(self, value: _core.Value) -> None:
+        """Raise if the value cannot be an output of the graph."""
         if value._graph is not None and value._graph is not self._graph:
             raise ValueError(
                 f"Value '{value}' is already an output of a different graph. Please remove the value from the previous graph first"
             )
+
+    def _set_graph(self, value: _core.Value) -> None:
+        """Set the graph for the value."""
+        self._check_value(value)
         self._ref_counter[value] += 1
         value._is_graph_output = True
         value._graph = self._graph
